@@ -37,6 +37,10 @@ try:
             denv[kv[0]] = kv[1]
     # the recorded command may carry free text after the command proper: keep the first command only
     dcmd = re.split(r"\s{2,}\(|\s+\(also|\s+#", dcmd)[0].strip()
+    # keep only the `go test/run ...` part: the tool copies the demo files itself and runs in the worktree
+    m_go = re.search(r"((?:[A-Z][A-Z0-9_]*=\S+\s+)*go (?:test|run)\b.*)$", dcmd)
+    if m_go:
+        dcmd = m_go.group(1)
 
     def put_demo():
         for f in demos:
